@@ -139,6 +139,13 @@ def check_vector_map(fx, rep):
                     ok = True
                 if subj[0] == "call" and isinstance(subj[1], str) and ("::get" in subj[1]) and subj[2] and field_of_self(subj[2][0], "data"):
                     ok = True
+                # `self.data.get_mut(i)?.take()`: the value taken out of the (existing) slot
+                if subj[0] == "call" and isinstance(subj[1], str) and subj[1].split("::")[-1] in ("take", "replace") and subj[2]:
+                    inner = subj[2][0]
+                    while isinstance(inner, tuple) and inner[0] in ("ref", "deref") and len(inner) > 1:
+                        inner = inner[1]
+                    if isinstance(inner, tuple) and inner[0] == "call" and isinstance(inner[1], str) and F.strip_generics(inner[1]).split("::")[-1] in ("get_mut", "index_mut") and inner[2] and field_of_self(inner[2][0], "data"):
+                        ok = True
             rep.oblige(
                 ok,
                 "R19.1",
@@ -454,6 +461,9 @@ def check_disjoint_set(fx, rep):
                         if '"None"' in pj or "::None" in pj:
                             not_found = True
                     if isinstance(anc, dict) and anc.get("k") == "If" and akey == "else" and "Some" in _json.dumps(anc.get("cond", {}))[:2000]:
+                        not_found = True
+                    # `let Some(parent) = reps.get(..) else { <here> }`
+                    if isinstance(anc, dict) and anc.get("s") == "Let" and akey == "els" and {v for _, v in (F.pat_variants(anc.get("pat") or {}) or set())} == {"Some"}:
                         not_found = True
                 self_link = kl is not None and kl == vl and kl in walkers and not_found
                 compress = kl in walkers and vl is not None and (vl in finds or (vl == ret_l and vl != kl))
